@@ -37,7 +37,6 @@ mutual
     | .fill => .fill
     | .deep k => .deep k
     | .dictMore kvs => .dictMore kvs
-    | .cut a => .cut a
   termination_by a => sizeOf a
   decreasing_by all_goals c18_dec
   def normItem {L} : Item L → Item L
@@ -75,12 +74,20 @@ def Step.okOnA {L} : Step L → Bool
 def aOk {L} (root : String) (steps : List (Step L)) : Bool :=
   root != "A" || steps.all Step.okOnA
 
-/-- an index of exact type tuple is a step of its own kind (`items`), an index that is a
-    slice object is `Item.slice` -/
-def Arg.isIndexAtom {L} : Arg L → Bool
-  | .seq .tuple _ => false
-  | .sliceObj _ _ _ => false
-  | _ => true
+/-- an index of exact type tuple is a step of its own kind (`items`) -/
+def Arg.isTuple {L} : Arg L → Bool
+  | .seq .tuple _ => true
+  | _ => false
+
+/-- an index — or an element of a tuple index — that is a slice object is an `Item.slice` -/
+def Arg.isSliceObj {L} : Arg L → Bool
+  | .sliceObj _ _ _ => true
+  | _ => false
+
+/-- what `T[x]` records as `('[', x)` with `x` not a tuple -/
+def Item.isAtom {L} : Item L → Bool
+  | .one a => !a.isTuple
+  | .slice _ _ _ => true
 
 /-- `Path.__init__` flattens T and Path parts: a `'P'` segment is neither -/
 def Arg.isSegArg {L} : Arg L → Bool
@@ -102,11 +109,10 @@ mutual
     | .fill => false
     | .deep _ => false
     | .dictMore _ => false
-    | .cut _ => false
   termination_by a => sizeOf a
   decreasing_by all_goals c18_dec
   def validItem {L} : Item L → Bool
-    | .one a => validArg a && a.isIndexAtom
+    | .one a => validArg a && !a.isSliceObj
     | .slice a b c =>
       (match a with | none => true | some x => validArg x) &&
       (match b with | none => true | some x => validArg x) &&
@@ -115,7 +121,7 @@ mutual
   decreasing_by all_goals c18_dec
   def validStep {L} : Step L → Bool
     | .attr _ => true
-    | .item i => validItem i
+    | .item i => validItem i && i.isAtom
     | .items is => (is.map (fun i => validItem i)).all id
     | .call args kwargs =>
       (args.map (fun a => validArg a)).all id && (kwargs.map (fun p => validArg p.2)).all id &&
@@ -136,8 +142,8 @@ def validP {L} (steps : List (Step L)) : Bool := steps.all (fun s => validStep s
 /-! ### inside the limits of `reprlib` -/
 
 /-- the text of an argument as `repr_instance` measures it -/
-def argWidth {L} (S : ScalarOps L) (F : FmtFacts) (lim : Limits) (a : Arg L) : Nat :=
-  (renderToks S.text lim.maxother (fmtArg F a)).length
+def argWidth {L} (S : ScalarOps L) (F : FmtFacts) (a : Arg L) : Nat :=
+  (renderToks S.text (fmtArg F a)).length
 
 def fitsLit {L} (S : ScalarOps L) (lim : Limits) (plain : Bool) (v : L) : Bool :=
   if plain then S.plain v && S.evaluable v else S.fits lim v && S.evaluable v
@@ -151,12 +157,14 @@ mutual
     | .lit v => fitsLit S lim plain v
     | .t root steps =>
       (steps.map (fun s => fitsStep S F lim s)).all id &&
-      (plain || argWidth S F lim (.t root steps) ≤ lim.maxother)
+      (plain || argWidth S F (.t root steps) ≤ lim.maxother)
     | .path root steps =>
       (steps.map (fun s => fitsStep S F lim s)).all id &&
-      (plain || argWidth S F lim (.path root steps) ≤ lim.maxother)
+      (plain || argWidth S F (.path root steps) ≤ lim.maxother)
     | .seq k xs =>
-      if plain then (xs.map (fun x => fitsArg S F lim true level x)).all id
+      -- the builtin repr prints a set in iteration order, which `eval` of the text does not keep
+      if plain then ((k != .set && k != .frozenset) || xs.length ≤ 1) &&
+        (xs.map (fun x => fitsArg S F lim true level x)).all id
       else !(level == 0 && !xs.isEmpty) && xs.length ≤ lim.maxOf k &&
         (xs.map (fun x => fitsArg S F lim false (level - 1) x)).all id
     | .dict kvs =>
@@ -166,12 +174,11 @@ mutual
                            fitsArg S F lim false (level - 1) p.2)).all id)
     | .sliceObj a b c =>
       fitsArg S F lim true level a && fitsArg S F lim true level b && fitsArg S F lim true level c &&
-      (plain || argWidth S F lim (.sliceObj a b c) ≤ lim.maxother)
+      (plain || argWidth S F (.sliceObj a b c) ≤ lim.maxother)
     | .bad _ => true
     | .fill => true
     | .deep _ => true
     | .dictMore _ => true
-    | .cut _ => true
   termination_by a => sizeOf a
   decreasing_by all_goals c18_dec
   def fitsItem {L} (S : ScalarOps L) (F : FmtFacts) (lim : Limits) : Item L → Bool
@@ -281,7 +288,8 @@ def Scalar.plainText : Scalar → String
     whatever its length, unless the cut removes the leading `<` -/
 def Scalar.fits (lim : Limits) : Scalar → Bool
   | .int i => (toString i).length ≤ lim.maxlong
-  | .str cs => (pyStrRepr (cs.take lim.maxstring)).length ≤ lim.maxstring
+  -- `repr(x[:maxstring])` is no longer than maxstring: then x itself has at most maxstring characters
+  | .str cs => cs.length ≤ lim.maxstring && (pyStrRepr cs).length ≤ lim.maxstring
   | .builtin _ raw => raw.length ≤ lim.maxother || (lim.maxother - 3) / 2 ≥ 1
   | v => v.text.length ≤ lim.maxother
 
@@ -341,18 +349,35 @@ def modelLimitNames : List String :=
   ["maxlevel", "maxtuple", "maxlist", "maxdict", "maxset", "maxfrozenset", "maxstring", "maxlong",
    "maxother"]
 
-def WF (F : Facts) : Bool :=
-  F.fmt.dunderGuard && F.fmt.tupleEmptyParen && F.fmt.singletonComma && F.fmt.pathRootAware &&
-  ["T", "S", "A"].all (fun r => F.getstateRoots.contains r && F.setstateRoots.contains r) &&
+/-- the three switches of `_format_t` are on and `_format_path` is given the root -/
+def wfFmt (F : Facts) : Bool :=
+  F.fmt.dunderGuard && F.fmt.tupleEmptyParen && F.fmt.singletonComma && F.fmt.pathRootAware
+
+def wfPickle (F : Facts) : Bool :=
+  ["T", "S", "A"].all (fun r => F.getstateRoots.contains r && F.setstateRoots.contains r)
+
+def wfSeq (F : Facts) : Bool :=
   F.getitemViaSteps &&
   F.lenExpr == "(len(self.path_t.__ops__) - 1) // 2" &&
   F.valuesExpr == "cur_t_path[2::2]" &&
-  F.itemsExpr == "tuple(zip(cur_t_path[1::2], cur_t_path[2::2]))" &&
-  -- every limit this Python's reprlib has — in particular those the model reads — is raised
+  F.itemsExpr == "tuple(zip(cur_t_path[1::2], cur_t_path[2::2]))"
+
+/-- every limit this Python's reprlib has — in particular those the model reads — is raised to at
+    least `minLimit` in the instance `bbrepr` is bound to, whose printing is reprlib's -/
+def wfLimits (F : Facts) : Bool :=
   (F.limitNames ++ modelLimitNames).all (fun n => match F.limitTable.lookup n with
     | some v => decide (minLimit ≤ v)
     | none => false) &&
   F.fillvalue == "..." && F.reprIsReprlib
+
+def WF (F : Facts) : Bool := wfFmt F && wfPickle F && wfSeq F && wfLimits F
+
+/-- every limit of `a` is at most the same limit of `b` -/
+def Limits.le (a b : Limits) : Bool :=
+  decide (a.maxlevel ≤ b.maxlevel) && decide (a.maxtuple ≤ b.maxtuple) && decide (a.maxlist ≤ b.maxlist) &&
+  decide (a.maxdict ≤ b.maxdict) && decide (a.maxset ≤ b.maxset) &&
+  decide (a.maxfrozenset ≤ b.maxfrozenset) && decide (a.maxstring ≤ b.maxstring) &&
+  decide (a.maxlong ≤ b.maxlong) && decide (a.maxother ≤ b.maxother)
 
 /-! ### observations and checkers -/
 
@@ -421,7 +446,7 @@ def pickleObj {L} (F : Facts) : Obj L → Option (Obj L)
       (fun rs => Obj.pobj rs.1 rs.2)
 
 def observeRepr {L} [BEq (Step L)] (S : ScalarOps L) (F : Facts) (x : Obj L) : ReprObs L :=
-  let render := renderToks S.text F.lim.maxother
+  let render := renderToks S.text
   let ev := parseObj (reprLim S F.fmt F.lim x)
   { text := render (reprLim S F.fmt F.lim x)
     evalOk := ev
